@@ -304,23 +304,36 @@ fn random_faults(seed: u64, thorough: bool, rep: &Report) -> Result<(), String> 
         }
     }
     // ban events from pgcat's hook log: (t, port)
-    let port_to_mock: HashMap<u16, usize> = lay.cell.mocks.iter().map(|m| (m.port, m.idx)).collect();
+    // (mocks listen on distinct loopback addresses and may share a port number)
+    let port_to_mock: HashMap<(String, u16), usize> = lay.cell.mocks.iter().map(|m| ((m.host(), m.port), m.idx)).collect();
     let mut ban_events: Vec<(u64, usize, String)> = vec![];
     // (t, client pid, mock) of every checkout
     let mut checkouts: Vec<(u64, i32, usize)> = vec![];
     for (t, k, line) in lay.cell.pg().events() {
         if k == "checkout" {
             if let Ok(v) = serde_json::from_str::<serde_json::Value>(&line) {
-                let port = v.get("port").and_then(|x| x.as_u64()).unwrap_or(0) as u16;
+                let port = (v.get("host").and_then(|x| x.as_str()).unwrap_or("").to_string(), v.get("port").and_then(|x| x.as_u64()).unwrap_or(0) as u16);
                 let cpid = v.get("cpid").and_then(|x| x.as_i64()).unwrap_or(0) as i32;
                 if let Some(m) = port_to_mock.get(&port) {
                     checkouts.push((t, cpid, *m));
                 }
             }
         }
+        // the moment the entry is in the ban list (the "ban" event is emitted before the list's
+        // write lock is taken; on a busy machine the two can be tens of ms apart)
+        if k == "ban.done" {
+            if let Ok(v) = serde_json::from_str::<serde_json::Value>(&line) {
+                let port = (v.get("host").and_then(|x| x.as_str()).unwrap_or("").to_string(), v.get("port").and_then(|x| x.as_u64()).unwrap_or(0) as u16);
+                if let Some(m) = port_to_mock.get(&port) {
+                    if let Some(last) = ban_events.iter_mut().rev().find(|b| b.1 == *m) {
+                        last.0 = t;
+                    }
+                }
+            }
+        }
         if k == "ban" {
             if let Ok(v) = serde_json::from_str::<serde_json::Value>(&line) {
-                let port = v.get("port").and_then(|x| x.as_u64()).unwrap_or(0) as u16;
+                let port = (v.get("host").and_then(|x| x.as_str()).unwrap_or("").to_string(), v.get("port").and_then(|x| x.as_u64()).unwrap_or(0) as u16);
                 let reason = v.get("reason").and_then(|x| x.as_str()).unwrap_or("").to_string();
                 if let Some(m) = port_to_mock.get(&port) {
                     ban_events.push((t, *m, reason.clone()));
